@@ -14,7 +14,7 @@ def run(replay=None):
     thorough = tier() == 'thorough'
     asts, stats = accepted(thorough, limit=None if thorough else 6000, salt='c03')
     rep.add_tlc(stats)
-    fams, st2 = accepted_families(['quants', 'slots', 'funs', 'incl', 'bool1w', 'alias', 'cmp11'], cap=None if thorough else 400, salt='c03f')
+    fams, st2 = accepted_families(['quants', 'slots', 'funs', 'incl', 'bool1w', 'alias', 'cmp11', 'clash'], cap=None if thorough else 400, salt='c03f')
     rep.add_tlc(st2)
     asts = asts + fams
     rnd = rng('c03')
